@@ -92,6 +92,8 @@ def write_crate(crate_dir, name, lib_rs, deps, harness_names, repo, extra_files=
         shutil.copy(lock, os.path.join(crate_dir, "Cargo.lock"))
     table = "#[cfg(not(kani))]\npub fn vp_harness(n: &str) -> Option<fn()> {\n    match n {\n" + "".join(
         '        "%s" => Some(%s as fn()),\n' % (h.split("::")[-1], h) for h in harness_names) + "        _ => None,\n    }\n}\n"
+    # the native shim is a module, not an extern crate: make `kani::` resolvable inside every module
+    lib_rs = re.sub(r"(?m)^(\s*(?:pub(?:\([a-z]+\))? )?mod (?!kani\b)\w+ \{[ \t]*)$", r"\1\n#[cfg(not(kani))] #[allow(unused_imports)] use crate::kani;", lib_rs)
     open(os.path.join(crate_dir, "src", "lib.rs"), "w").write(lib_rs + "\n" + table)
     open(os.path.join(crate_dir, "src", "bin", "vp_replay.rs"), "w").write(MAIN.replace("CRATE", name))
     for rel, text in (extra_files or {}).items():
